@@ -123,8 +123,8 @@ def run_blocks(tier, chunk=40):
 # Structured sets whose lengths sit on either side of powers of two: what a blocked / SIMD / galloping rewrite of a merge
 # loop (process 16/32/64 elements at a time, then a scalar tail) gets wrong.
 BLOCK_LENS = {
-    "quick": [15, 16, 17, 31, 32, 33, 63, 64, 65, 127, 128, 129],
-    "thorough": [15, 16, 17, 31, 32, 33, 63, 64, 65, 127, 128, 129, 255, 256, 257, 511, 512, 513, 1023, 1024, 1025],
+    "quick": [15, 16, 17, 31, 32, 33, 63, 64, 65, 127, 128, 129, 255, 256, 257, 511, 512, 513, 1023, 1024, 1025],
+    "thorough": [15, 16, 17, 31, 32, 33, 63, 64, 65, 127, 128, 129, 255, 256, 257, 511, 512, 513, 1023, 1024, 1025, 2047, 2048, 2049, 4095, 4096, 4097, 8191, 8192, 8193],
 }
 BLOCK_PATTERNS = ["dense", "evens", "odds", "thirds", "shifted", "twoblocks"]
 
@@ -154,6 +154,20 @@ def block_descs(tier):
     return [{"pat": p, "n": n} for n in BLOCK_LENS[tier] for p in BLOCK_PATTERNS]
 
 
+def huge_pairs(tier):
+    """(long structured operand, short operand) around 16-bit sizes: 65 535 / 65 536 / 65 537 elements against 1-3 element probes and against
+    a 2 000-element operand."""
+    out = []
+    for n in (65535, 65536, 65537) + ((131073, 262145) if tier == "thorough" else ()):
+        for pat in ("dense", "evens", "thirds"):
+            A = expand({"pat": pat, "n": n})
+            for B in tiny_probes(A):
+                out.append(({"pat": pat, "n": n}, B))
+            out.append(({"pat": pat, "n": n}, {"pat": "evens", "n": 2000}))
+            out.append(({"pat": pat, "n": n}, {"pat": "shifted", "n": 2049}))
+    return out
+
+
 def block_blocks(tier, chunk=6):
     n = len(block_descs(tier))
     return [("blocked", {"a0": i, "a1": min(n, i + chunk)}) for i in range(0, n, chunk)]
@@ -179,7 +193,7 @@ def tiny_probes(A):
 def many_long_lists(tier):
     out = []
     top = 18 if tier == "quick" else 34
-    for n in range(5, top + 1):
+    for n in list(range(5, top + 1)) + [63, 64, 65, 66, 100, 129, 130, 257, 300]:
         out.append([[10 * i] for i in range(n)])
         out.append([[10 * (n - i)] for i in range(n)])
         out.append([[i, i + 1] for i in range(n)])
